@@ -122,6 +122,56 @@ super().updateStats(file, stats)"""
 EXIT_T = "rv = <<n:exit_error>> if not return_zero and observers.error else <<n:exit_ok>>"
 
 
+# ObserverList.serializeSummaries: the display key tuple, the two widths, the
+# key list of the total and the key of the rate are free; everything else
+# (column order, the extra column for several projects, `or ''`, row.strip(),
+# sorted locales, summaries[-1], the percent line) is the shape the model
+# coq/Model/Summaries.v mirrors.
+SUMMARIES_T = """summaries = {loc: [] for loc in self.summary.keys()}
+for observer in self.observers:
+    for loc, lst in summaries.items():
+        lst.append(observer.summary.get(loc, {}))
+if len(self.observers) > 1:
+    for loc, lst in summaries.items():
+        lst.append(self.summary[loc])
+keys = @@DKEYS@@
+leads = [f'{k:<<n:lead_w>>}' for k in keys]
+out = []
+for locale, summaries in sorted(summaries.items()):
+    if locale:
+        out.append(locale + ':')
+    segment = [''] * len(keys)
+    for summary in summaries:
+        for row, key in enumerate(keys):
+            segment[row] += ' {:<<n:cell_w>>}'.format(summary.get(key) or '')
+    out += [lead + row for lead, row in zip(leads, segment) if row.strip()]
+    total = sum((summaries[-1].get(k, 0) for k in @@RKEYS@@))
+    rate = 0
+    if total:
+        rate = (<<s:rate_key>> in summary and summary[<<s:rate_key>>] * 100 or 0) / total
+    out.append('%d%% of entries changed' % rate)
+return '\\n'.join(out)"""
+
+
+def _summaries_facts(obs):
+    text = _strip_doc(_method(obs, "ObserverList", "serializeSummaries"))
+    rx = _template(SUMMARIES_T).pattern
+    rx = rx.replace(re.escape("@@DKEYS@@"), r"(?P<dkeys>\([^()]*\))")
+    rx = rx.replace(re.escape("@@RKEYS@@"), r"(?P<rkeys>\[[^\[\]]*\])")
+    m = re.compile(rx).match(text)
+    if not m:
+        raise RuntimeError("ObserverList.serializeSummaries no longer has the shape the model "
+                           "mirrors:\n" + text)
+    d = m.groupdict()
+    dkeys, rkeys = ast.literal_eval(d["dkeys"]), ast.literal_eval(d["rkeys"])
+    for what, ks in (("display keys", dkeys), ("rate keys", rkeys)):
+        if not (isinstance(ks, (tuple, list)) and ks and all(isinstance(k, str) for k in ks)
+                and len(set(ks)) == len(ks)):
+            raise RuntimeError("serializeSummaries: %s are not distinct string literals: %r" % (what, ks))
+    return {"dkeys": list(dkeys), "rkeys": list(rkeys), "rate_key": d["rate_key"],
+            "lead_w": int(d["lead_w"]), "cell_w": int(d["cell_w"])}
+
+
 def _match(tmpl, text, what):
     m = _template(tmpl).match(text)
     if not m:
@@ -176,7 +226,12 @@ def read_facts():
     rets = [ast.unparse(x) for x in ast.walk(handle) if isinstance(x, ast.Return)]
     if rets != ["return rv"]:
         raise RuntimeError("CompareLocales.handle returns %r" % rets)
+    sm = _summaries_facts(obs)
+    if not set(sm["dkeys"]) <= set(keys) or not set(sm["rkeys"]) <= set(keys) \
+            or sm["rate_key"] not in keys:
+        raise RuntimeError("serializeSummaries reads keys the counter dict does not have: %r" % sm)
     return {
+        "summaries": sm,
         "names": names, "keys": keys, "suffix": n["suffix"], "errors_key": s["errors_key"],
         "thr": {k: int(n[k]) for k in ("files_hidden", "obsolete_file_shown", "missingEntity_lt",
                                        "obsoleteEntity_lt", "error_lt", "warning_lt")},
@@ -212,5 +267,17 @@ def generate():
     L.append("(* `rv = a if not return_zero and observers.error else b` *)")
     L.append(f"Definition exit_error : Z := {f['exit_error']}%Z.")
     L.append(f"Definition exit_ok : Z := {f['exit_ok']}%Z.")
+    sm = f["summaries"]
+    L.append("(* ObserverList.serializeSummaries: the rows shown (in this order), the width of")
+    L.append("   the row label and of a cell, the keys summed into the total of the percent line")
+    L.append("   and the key of its numerator *)")
+    L.append("Definition display_keys : list (list N) := [\n  " +
+             ";\n  ".join(f"{coq_str(k)} (* {k} *)" for k in sm["dkeys"]) + "].")
+    L.append(f"Definition lead_width : nat := {sm['lead_w']}.")
+    L.append(f"Definition cell_width : nat := {sm['cell_w']}.")
+    L.append("Definition rate_keys : list (list N) := [\n  " +
+             ";\n  ".join(f"{coq_str(k)} (* {k} *)" for k in sm["rkeys"]) + "].")
+    L.append(f"Definition rate_key : list N := {coq_str(sm['rate_key'])}.  (* {sm['rate_key']!r} *)")
+    L.append(f"Definition rate_suffix : list N := {coq_str('% of entries changed')}.")
     L.append("")
     return [("ObserverFacts.v", "\n".join(L))]
